@@ -117,7 +117,8 @@ def undetermined_cells(scn, trace, Qfloat=None):
             cid = chunk['names'][row]
             q = [Q[pos_of[cid]][qpos[g]] for g in genes]
             cs = sorted(((maptrace.pearson(q, M[lf]), lf) for lf in M), reverse=True)
-            if len(cs) > 1 and cs[0][0] - cs[1][0] < 1e-9 and typ[cs[0][1]] != typ[cs[1][1]]:
+            # near-tie rule: every leaf within 1e-9 of the best must belong to the same child
+            if len({typ[lf] for c, lf in cs if cs[0][0] - c < 1e-9}) > 1:
                 und.add(cid)
     return und
 
